@@ -85,7 +85,7 @@ def compare(src, mode="exec", do_compile=True):
         return Result("invalid")
     try:
         ctree = cpy_parse(prep(src, mode), mode)
-    except (SyntaxError, ValueError):
+    except (SyntaxError, ValueError, SystemError):       # SystemError: CPython 3.12.1 tokenizer bug, see pymutate.tokens
         return Result("invalid")
     except (RecursionError, MemoryError):
         return Result("invalid")
@@ -164,7 +164,7 @@ def _candidates(src, tree):
 def _token_deletions(src):
     try:
         toks = list(tokenize.generate_tokens(io.StringIO(src).readline))
-    except (tokenize.TokenError, IndentationError, SyntaxError):
+    except (tokenize.TokenError, IndentationError, SyntaxError, SystemError):
         return
     lines = src.split("\n")
     offs = [0]
